@@ -273,7 +273,7 @@ static void quiesce(void){
     myth_yield_ex(myth_yield_option_local_only);
     U("U_YieldRet", 1, 0L);
     /* ... YieldBeg, QPop(q,0), YieldEnd, U_YieldRet: the local queue was empty, nothing was switched to */
-    if (vrt_peek(3, &nm, &la) && !strcmp(nm, "QPop") && la == 0 && vrt_all_others_idle()) break;
+    if (vrt_peek(3, &nm, &la) && !strcmp(nm, "QPop") && vrt_peek_arg(3, 2) == 0 && vrt_all_others_idle()) break;
     if (++guard > 3000) vrt_giveup("HANG");      /* the system never becomes quiescent */
   }
 }
